@@ -103,6 +103,51 @@ theorem find_break_spec (data : List Row) (safeBreak notBefore : Int) (h : 2 ≤
 example : findBreakI [⟨0, 2, 0⟩, ⟨1, 5, 1⟩, ⟨6, 7, 2⟩, ⟨9, 10, 3⟩] 2 0 = .ok 3 ∧
     findBreakI [⟨0, 2, 0⟩, ⟨1, 5, 1⟩, ⟨6, 7, 2⟩, ⟨9, 10, 3⟩] 2 8 = .error Err.noBreakFound := by decide
 
+/-! ### abs_time_to_prev_next_interval -/
+
+/-- `abs_time_to_prev_next_interval` returns for every thing the distance from its start back to the nearest interval
+end at or before it and from its end forward to the nearest interval start at or after it (`-1` when there is none).
+Intervals sorted, non-overlapping and of positive length; things sorted by time with non-negative length.  The proof
+shows that the documented "things do not overlap" is not needed: `max(0, seen - 1)` already keeps the pointer at most
+one interval behind for any time-sorted things. -/
+theorem prev_next_spec (things intervals : List Row)
+    (ht : sortedByTimeB things = true) (hnt : nonNegB things = true)
+    (hs : sortedByTimeB intervals = true) (hn : nonOverlapB intervals = true) (hp : positiveRowsB intervals = true) :
+    absTimeToPrevNext things intervals = .ok (prevNextSpec things intervals) :=
+  absTimeToPrevNext_eq_spec ht hnt hs hn hp
+
+example : sortedByTimeB [⟨4, 6, 0⟩, ⟨5, 9, 1⟩] = true ∧ nonNegB [⟨4, 6, 0⟩, ⟨5, 9, 1⟩] = true ∧
+    sortedByTimeB [⟨0, 2, 0⟩, ⟨2, 4, 1⟩, ⟨8, 9, 2⟩, ⟨12, 13, 3⟩] = true ∧
+    nonOverlapB [⟨0, 2, 0⟩, ⟨2, 4, 1⟩, ⟨8, 9, 2⟩, ⟨12, 13, 3⟩] = true ∧
+    positiveRowsB [⟨0, 2, 0⟩, ⟨2, 4, 1⟩, ⟨8, 9, 2⟩, ⟨12, 13, 3⟩] = true ∧
+    absTimeToPrevNext [⟨4, 6, 0⟩, ⟨5, 9, 1⟩] [⟨0, 2, 0⟩, ⟨2, 4, 1⟩, ⟨8, 9, 2⟩, ⟨12, 13, 3⟩] = .ok [(0, 2), (1, 3)] := by
+  decide
+
+/-! ### sort_by_time -/
+
+/-- the composite-key argsort of `sort_by_time` *is* the stable merge sort by (time, channel) — by time alone when
+the array has no channel field — so the result is a deterministic function of the input … -/
+theorem sort_eq_stable_lexicographic (hasChannel : Bool) (x : List CRow) :
+    sortByTime hasChannel x = x.mergeSort (lexLeB hasChannel) :=
+  sortByTime_eq_mergeSort hasChannel x
+
+/-- … it is a permutation of the input, sorted by (time, channel), and stable: every subsequence of the input that
+is already in order (in particular any rows with equal time and channel) appears in the output in the same order. -/
+theorem sort_stable_perm_sorted (hasChannel : Bool) (x : List CRow) :
+    (sortByTime hasChannel x).Perm x ∧
+    (sortByTime hasChannel x).Pairwise (fun a b => lexLeB hasChannel a b = true) ∧
+    (∀ ys : List CRow, ys.Pairwise (fun a b => lexLeB hasChannel a b = true) → ys.Sublist x →
+      ys.Sublist (sortByTime hasChannel x)) := by
+  rw [sortByTime_eq_mergeSort]
+  exact ⟨List.mergeSort_perm _ _,
+    List.pairwise_mergeSort (lexLeB_trans hasChannel) (lexLeB_total hasChannel) x,
+    fun ys h1 h2 => List.sublist_mergeSort (lexLeB_trans hasChannel) (lexLeB_total hasChannel) h1 h2⟩
+
+/-- two rows with the same (time, channel) keep their input order (`mergeSort` does not reduce by `decide`, so the
+instance goes through the theorem) -/
+example : [(⟨5, 1, 0⟩ : CRow), ⟨5, 1, 3⟩].Sublist (sortByTime true [⟨5, 1, 0⟩, ⟨3, 2, 1⟩, ⟨3, -1, 2⟩, ⟨5, 1, 3⟩]) :=
+  (sort_stable_perm_sorted true _).2.2 _ (by decide) (by decide)
+
 /-! ### inputs violating sortedness are rejected -/
 
 /-- the checking wrappers answer `ValueError`, never a value, on an unsorted things / containers array or on a
@@ -116,6 +161,12 @@ theorem unsorted_rejected (things containers : List Row) (window : Int)
   refine ⟨?_, ?_, touchingWindows_error window h⟩
   · simp only [fullyContainedIn, sanity_error h]
   · simp only [splitByContainment, sanity_error h]
+
+/-- `abs_time_to_prev_next_interval` rejects unsorted things or intervals (it has no length check) -/
+theorem unsorted_rejected_prev_next (things intervals : List Row)
+    (h : sortedByTimeB things = false ∨ sortedByTimeB intervals = false) :
+    absTimeToPrevNext things intervals = .error Err.valueError :=
+  absTimeToPrevNext_error h
 
 example : sortedByTimeB [⟨3, 4, 0⟩, ⟨2, 3, 1⟩] = false ∧ nonNegB [⟨3, 2, 0⟩] = false := by decide
 
